@@ -257,7 +257,7 @@ Definition parse_punct1 (p : N) (c : cursor) : option cursor :=
 Definition s2l (s : string) : str := List.map N_of_ascii (list_ascii_of_string s).
 
 (* ident.rs accept_as_ident *)
-Definition keywords : list str := List.map s2l
+Definition keywords : list str := Eval vm_compute in List.map s2l
   ["_"; "abstract"; "as"; "async"; "await"; "become"; "box"; "break"; "const"; "continue"; "crate";
    "do"; "dyn"; "else"; "enum"; "extern"; "false"; "final"; "fn"; "for"; "if"; "impl"; "in"; "let";
    "loop"; "macro"; "match"; "mod"; "move"; "mut"; "override"; "priv"; "pub"; "ref"; "return"; "Self";
@@ -702,6 +702,334 @@ Definition ident_iff (e : expr) : Prop :=
   is_plain_field_ref e = true <-> exists i, expr_to_tokens e = [TIdent i].
 
 Definition opt_comma (b : bool) : list tt := if b then [comma_alone] else [].
+
+(* ================================================================== Part 3: reference scanner and grammar-level spec *)
+
+(** fuel-free reference versions of the combinators (proved equal to the model functions in Proofs.v) *)
+Definition path_sep_ref (c : cursor) : option (stream * cursor) :=
+  match c with
+  | TPunct c1 true :: TPunct c2 j :: r =>
+      if (c1 =? c_colon) && (c2 =? c_colon) then Some ([TPunct c1 true; TPunct c2 j], r) else None
+  | _ => None
+  end.
+
+
+Definition arrow_ref (c : cursor) : option (stream * cursor) :=
+  match c with
+  | TPunct c1 true :: TPunct c2 j :: r =>
+      if (c1 =? c_minus) && (c2 =? c_gt) then Some ([TPunct c1 true; TPunct c2 j], r) else None
+  | _ => None
+  end.
+
+
+(** the counting loop of balanced_pair for two punctuation characters, by structural recursion on the
+    cursor; returns the consumed prefix.  A `->` is stepped over. *)
+Fixpoint bal (o cl : N) (count : nat) (c : cursor) {struct c} : option (stream * cursor) :=
+  match count with
+  | O => Some ([], c)
+  | S k =>
+      match c with
+      | [] => None
+      | t :: c' =>
+          match (if is_jminus t then match c' with
+                                     | t2 :: c'' => if is_p c_gt t2 then Some (t2, bal o cl count c'') else None
+                                     | [] => None end
+                 else None) with
+          | Some (t2, res) =>
+              match res with Some (s, r) => Some (t :: t2 :: s, r) | None => None end
+          | None =>
+              match bal o cl (if is_p cl t then k else if is_p o t then S count else count) c' with
+              | Some (s, r) => Some (t :: s, r)
+              | None => None
+              end
+          end
+      end
+  end.
+
+
+Definition balanced_pair_ref (o cl : N) (c : cursor) : option (stream * cursor) :=
+  match c with
+  | t :: c' =>
+      if is_p o t then match bal o cl 1 c' with Some (s, r) => Some (t :: s, r) | None => None end
+      else None
+  | [] => None
+  end.
+
+
+Definition seq2_ref (p q : cursor -> option (stream * cursor)) (c : cursor) : option (stream * cursor) :=
+  match p c with
+  | Some (s1, c1) => match q c1 with Some (s2, c2) => Some (s1 ++ s2, c2) | None => None end
+  | None => None
+  end.
+
+Definition orelse {A} (a b : option A) : option A := match a with Some x => Some x | None => b end.
+
+Definition token_tree_ref (c : cursor) : option (stream * cursor) :=
+  match c with t :: r => Some ([t], r) | [] => None end.
+
+Definition expr_alt_ref (c : cursor) : option (stream * cursor) :=
+  orelse (seq2_ref path_sep_ref (balanced_pair_ref c_lt c_gt) c)
+ (orelse (seq2_ref (balanced_pair_ref c_lt c_gt) path_sep_ref c)
+ (orelse (balanced_pair_ref c_bar c_bar c)
+         (token_tree_ref c))).
+
+
+(* ------------------------------------------------------------------ the grammar-level splitter (specification)
+
+   A position-aware reading of an argument's tokens, the way Rust's expression grammar reads them: it knows
+   whether an operand or an operator is expected, so `<` and `|` after an operand are binary operators, `<` and
+   `|` where an operand is expected open a qualified path / a closure parameter list, `::<` opens generic
+   arguments, and after `as` / `->` a type is read, whose `<` opens generic arguments.  It never looks at what
+   the scanner of parsing.rs does.  Every step also says whether it is one of the situations in which that
+   scanner is known to read the tokens differently ([ok] = false):
+     - an operator-position `<` from which the scanner's `<..>::` alternative would nevertheless succeed,
+     - an operator-position `|` (not `||`) from which the scanner's `|..|` alternative would succeed,
+     - generic arguments in type position (`x as M<K, V>`, `|x| -> M<K, V> {..}`), a closure binder `for<..>`.
+   The characterisation theorem says that on every token list without such a step the scanner's split IS this one;
+   the check measures this splitter against syn's full expression parser on every run. *)
+
+Inductive pos :=
+| POperand      (* an operand is expected *)
+| POperator     (* an operand has just ended *)
+| PType         (* inside a type (after `as`, `->`) *)
+| PMinus        (* operand expected, previous token was a Joint `-` *)
+| PTMinus       (* inside a type, previous token was a Joint `-` *)
+| PHash         (* after `#`: the attribute's bracket group follows *)
+| PTick.        (* after `'`: a label / lifetime name follows *)
+
+Definition kw_operand_next : list str := Eval vm_compute in List.map s2l
+  ["return"; "break"; "continue"; "yield"; "move"; "async"; "unsafe"; "if"; "else"; "match"; "while"; "for"; "in";
+   "loop"; "let"; "mut"; "ref"; "const"; "static"; "dyn"; "impl"; "box"; "where"; "raw"]%string.
+
+Definition c_hash_ := 35.
+Definition kw_as : str := Eval vm_compute in s2l "as".
+Definition kw_for : str := Eval vm_compute in s2l "for".
+
+Definition after_tok (t : tt) : pos :=
+  match t with
+  | TIdent s =>
+      if str_eqb s kw_as then PType
+      else if existsb (str_eqb s) kw_operand_next then POperand else POperator
+  | TLit _ | TGroup _ _ => POperator
+  | TPunct ch j =>
+      if ch =? c_quest then POperator
+      else if ch =? c_hash_ then PHash
+      else if ch =? c_apos then PTick
+      else if (ch =? c_minus) && j then PMinus
+      else POperand
+  end.
+
+Definition type_tok (t : tt) : bool :=
+  match t with
+  | TIdent s => negb (str_eqb s kw_as)
+  | TLit _ => false
+  | TGroup d _ => match d with Brace => false | _ => true end
+  | TPunct ch _ => existsb (N.eqb ch) [38; 42; c_apos; c_colon; 33; c_quest; c_minus]      (* & * ' : ! ? - *)
+  end.
+
+Definition is_type_pos (st : pos) : bool := match st with PType | PTMinus => true | _ => false end.
+Definition is_some {A} (o : option A) : bool := match o with Some _ => true | None => false end.
+
+Definition turbofish_ref : cursor -> option (stream * cursor) := seq2_ref path_sep_ref (balanced_pair_ref c_lt c_gt).
+Definition qpath_ref : cursor -> option (stream * cursor) := seq2_ref (balanced_pair_ref c_lt c_gt) path_sep_ref.
+Definition bars_ref_ : cursor -> option (stream * cursor) := balanced_pair_ref c_bar c_bar.
+
+(** one unit read where an operator is expected *)
+Definition operator_step (t : tt) (r : cursor) : stream * cursor * pos * bool :=
+  if is_p c_lt t then ([t], r, POperand, negb (is_some (qpath_ref (t :: r))))
+  else if is_p c_bar t then
+    match t, r with
+    | TPunct _ true, t2 :: r2 =>
+        if is_p c_bar t2 then ([t; t2], r2, POperand, true)                       (* `||` *)
+        else ([t], r, POperand, negb (is_some (bars_ref_ (t :: r))))
+    | _, _ => ([t], r, POperand, negb (is_some (bars_ref_ (t :: r))))
+    end
+  else ([t], r, after_tok t, true).
+
+Definition spec_step (st : pos) (c : cursor) : option (stream * cursor * pos * bool) :=
+  match c with
+  | [] => None
+  | t :: r =>
+      match turbofish_ref c with
+      | Some (u, r') => Some (u, r', if is_type_pos st then PType else POperator, true)
+      | None =>
+          if is_type_pos st then
+            if is_p c_lt t then
+              match balanced_pair_ref c_lt c_gt c with
+              | Some (u, r') => Some (u, r', PType, false)                        (* generic arguments of a type *)
+              | None => Some ([t], r, POperand, true)
+              end
+            else if match st with PTMinus => is_p c_gt t | _ => false end then Some ([t], r, PType, true)
+            else if type_tok t then Some ([t], r, if is_jminus t then PTMinus else PType, true)
+            else Some (operator_step t r)
+          else match st with
+          | POperator => Some (operator_step t r)
+          | _ =>
+              if match st with PMinus => is_p c_gt t | _ => false end then Some ([t], r, PType, true)   (* `->` *)
+              else if match st, t with PHash, TGroup _ _ => true | PTick, TIdent _ => true | _, _ => false end
+              then Some ([t], r, POperand, true)
+              else if is_p c_lt t then
+                match qpath_ref c with
+                | Some (u, r') => Some (u, r', POperand, true)                    (* `<T as Tr<A, B>>::` *)
+                | None => Some ([t], r, POperand, true)
+                end
+              else if is_p c_bar t then
+                match bars_ref_ c with
+                | Some (u, r') => Some (u, r', POperand, true)                    (* closure parameters *)
+                | None => Some ([t], r, POperand, true)
+                end
+              else match t, balanced_pair_ref c_lt c_gt r with
+                   | TIdent s, Some (u, r') =>
+                       if str_eqb s kw_for then Some (t :: u, r', POperand, false)   (* closure binder *)
+                       else Some ([t], r, after_tok t, true)
+                   | _, _ => Some ([t], r, after_tok t, true)
+                   end
+          end
+      end
+  end.
+
+Inductive sres (A : Type) : Type := SOk (a : A) (ok : bool) | SFail (ok : bool) | SFuel.
+Arguments SOk {A} a ok.
+Arguments SFail {A} ok.
+Arguments SFuel {A}.
+
+(** one argument: units up to the first top-level comma *)
+Fixpoint spec_arg_loop (fuel : nat) (st : pos) (out : stream) (parsed : bool) (c : cursor) {struct fuel}
+  : sres (stream * cursor) :=
+  match fuel with
+  | O => SFuel
+  | S fuel' =>
+      let finish := if parsed then SOk (out, c) true else SFail true in
+      match c with
+      | [] => finish
+      | t :: _ =>
+          if is_p c_comma t then finish
+          else match spec_step st c with
+               | Some (u, r, st', ok) =>
+                   match spec_arg_loop fuel' st' (out ++ u) true r with
+                   | SOk x ok2 => SOk x (ok && ok2)
+                   | SFail ok2 => SFail (ok && ok2)
+                   | SFuel => SFuel
+                   end
+               | None => SFail true
+               end
+      end
+  end.
+
+(** the list: argument, comma, argument, ... with an optional trailing comma; every argument starts in [POperand] *)
+Fixpoint spec_split_loop (fuel : nat) (c : cursor) {struct fuel} : sres (list stream * bool) :=
+  match fuel with
+  | O => SFuel
+  | S fuel' =>
+      match c with
+      | [] => SOk ([], false) true
+      | _ =>
+          match spec_arg_loop fuel POperand [] false c with
+          | SOk (a, c1) ok =>
+              match c1 with
+              | [] => SOk ([a], false) ok
+              | _ =>
+                  match parse_punct1 c_comma c1 with
+                  | Some c2 =>
+                      match spec_split_loop fuel' c2 with
+                      | SOk (vs, tr) ok2 => SOk (a :: vs, match vs with [] => true | _ => tr end) (ok && ok2)
+                      | SFail ok2 => SFail (ok && ok2)
+                      | SFuel => SFuel
+                      end
+                  | None => SFail ok
+                  end
+              end
+          | SFail ok => SFail ok
+          | SFuel => SFuel
+          end
+      end
+  end.
+
+Definition spec_split (ts : list tt) : sres (list stream * bool) := spec_split_loop (S (length ts)) ts.
+
+(** the token list contains none of the situations listed above *)
+Definition limit_free (ts : list tt) : bool :=
+  match spec_split ts with SOk _ ok => ok | SFail ok => ok | SFuel => false end.
+
+(** what the grammar-level splitter says, in the vocabulary of the scanner's result *)
+Definition spec_result (ts : list tt) : outcome (list expr * bool) :=
+  match spec_split ts with
+  | SOk (args, tr) _ => Ok (List.map mk_expr args, tr)
+  | SFail _ => Fail
+  | SFuel => Fuel
+  end.
+
+Definition view_spec (ts : list tt) : sres (list nat * bool) :=
+  match spec_split ts with
+  | SOk (args, tr) ok => SOk (List.map (@length tt) args, tr) ok
+  | SFail ok => SFail ok
+  | SFuel => SFuel
+  end.
+
+(* ------------------------------------------------------------------ which argument a placeholder denotes
+
+   fmt/mod.rs:153-203 FmtAttribute::transparent_call, the part that selects the argument (cases (3)-(5)); the
+   placeholder itself ([parsing::format] of the literal, no modifiers) is an input here (property C03/C05). *)
+Inductive ph_arg := PhNone | PhIndex (n : nat) | PhName (s : str).   (* `{}` / `{N}` / `{name}` *)
+
+Definition transparent_expr (ph : ph_arg) (a : fmt_attribute) : option expr :=
+  let items := p_items (at_args a) in
+  match ph with
+  | PhNone | PhIndex O =>                                   (* (3) exactly one argument, aliased or not *)
+      match items with [x] => Some (fa_expr x) | _ => None end
+  | PhIndex (S _) => None                                   (* left for format_args! to report *)
+  | PhName n =>
+      match items with
+      | [] => Some (EIdent n)                               (* (4) an outer binding *)
+      | [x] =>                                              (* (5) the one argument named so *)
+          match fa_alias x with
+          | Some al => if str_eqb al n then Some (fa_expr x) else None
+          | None => None
+          end
+      | _ => None
+      end
+  end.
+
+(* fmt/mod.rs:248-263 bounded_types: the argument a placeholder refers to *)
+Definition arg_by_index (a : fmt_attribute) (i : nat) : option fmt_argument := nth_error (p_items (at_args a)) i.
+Definition arg_by_name (a : fmt_attribute) (n : str) : option fmt_argument :=
+  List.find (fun x => match fa_alias x with Some al => str_eqb al n | None => false end) (p_items (at_args a)).
+
+(** format_args!'s own rule: an index is a position in the argument list whether the argument is aliased or not;
+    a name is the argument with that alias, otherwise an implicit capture of the name *)
+Inductive denoted := DArg (i : nat) | DCapture (n : str) | DInvalid.
+
+Fixpoint find_alias (n : str) (items : list fmt_argument) (i : nat) : option nat :=
+  match items with
+  | [] => None
+  | x :: rest =>
+      match fa_alias x with
+      | Some al => if str_eqb al n then Some i else find_alias n rest (S i)
+      | None => find_alias n rest (S i)
+      end
+  end.
+
+Definition fa_denotes (ph : ph_arg) (items : list fmt_argument) : denoted :=
+  match ph with
+  | PhNone => if Nat.ltb 0 (length items) then DArg 0 else DInvalid
+  | PhIndex i => if Nat.ltb i (length items) then DArg i else DInvalid
+  | PhName n => match find_alias n items 0 with Some i => DArg i | None => DCapture n end
+  end.
+
+(** the `name =` decision of FmtArgument::parse as a function of the tokens *)
+Definition alias_shape (c : cursor) : option str :=
+  match c with
+  | TIdent s :: TPunct ch j :: rest =>
+      if accept_as_ident s && (ch =? c_eq) && negb (glued j rest) then Some s else None
+  | _ => None
+  end.
+
+Definition view_transparent (ph : ph_arg) (c : cursor) : outcome (option stream) :=
+  match parse_attr c with
+  | Ok a => Ok (match transparent_expr ph a with Some e => Some (expr_to_tokens e) | None => None end)
+  | Fail => Fail
+  | Fuel => Fuel
+  end.
 
 (* ------------------------------------------------------------------ shorthand for writing token lists in statements *)
 Definition id_ (s : string) : tt := TIdent (s2l s).      (* identifier or keyword *)
